@@ -5,8 +5,11 @@ usage: tools/mutant.py <mutant-name-substring | path/to/patch.diff> <ID>[,<ID>..
 """
 import json, os, subprocess, sys, shutil, glob
 ROOT = "/verif"
-WT = "/tmp/sqv-mut-wt"
-WORK = f"{ROOT}/.work/mut"
+# SQV_MUT_ID separates concurrent users (own scratch worktree and build dir); SQV_HARNESS_DIR selects the harness copy to test
+MID = os.environ.get("SQV_MUT_ID", "")
+HARNESS = os.environ.get("SQV_HARNESS_DIR", f"{ROOT}/harness")
+WT = "/tmp/sqv-mut-wt" + (f"-{MID}" if MID else "")
+WORK = f"{ROOT}/.work/mut" + (f"-{MID}" if MID else "")
 
 def sh(cmd, **kw):
     return subprocess.run(cmd, shell=True, text=True, capture_output=True, **kw)
@@ -49,7 +52,7 @@ def main():
     prepare_worktree()
     name = apply(spec)
     os.makedirs(WORK, exist_ok=True)
-    sh(f"rsync -a --delete {ROOT}/harness/ {WORK}/harness/ && sed -i 's#path = \"/repo\"#path = \"{WT}\"#' {WORK}/harness/Cargo.toml")
+    sh(f"rsync -a --delete {HARNESS}/ {WORK}/harness/ && sed -i 's#path = \"/repo\"#path = \"{WT}\"#' {WORK}/harness/Cargo.toml")
     sh(f"rm -rf {WORK}/root && mkdir -p {WORK}/root/replays && cp {ROOT}/KNOWN_FINDINGS.txt {WORK}/root/ && cp -r {ROOT}/replays/known {ROOT}/replays/regress {WORK}/root/replays/ 2>/dev/null")
     results = {}
     for pid in ids:
